@@ -21,6 +21,11 @@ pub fn gen_value_case(g: &mut G, cfg: &gs::Cfg, op: &str, n_valid: usize, n_mut:
         let keep: Vec<String> = vec!["definitions".into(), "$schema".into()];
         o.retain(|k, _| keep.contains(k));
     }
+    if op == "rt" {
+        // KF-004 (optional cyclic member serialises `null`) avoided by construction
+        let n = gs::make_optional_cyclic_refs_nullable(&mut doc);
+        gen::excluded("optional-cyclic-ref-made-nullable", n);
+    }
     let names = gs::def_names(&doc);
     let mut roots = vec![];
     let mut probes = vec![];
@@ -105,7 +110,8 @@ pub fn prepare_values(case_v: &Value, want: &dyn Fn(&Index, &crate::ingest::Type
         }
     }
     let armed: std::collections::BTreeSet<(usize, String)> = drv.arms.iter().map(|(r, o, _)| (*r, o.clone())).collect();
-    unit.probes = case.probes.iter().filter(|p| armed.contains(&(p.root, p.op.clone()))).cloned().collect();
+    let needs_str = |op: &str| matches!(op, "parse" | "try_from_str" | "try_from_ref_string" | "try_from_string");
+    unit.probes = case.probes.iter().filter(|p| armed.contains(&(p.root, p.op.clone())) && (!needs_str(&p.op) || p.arg.is_string())).cloned().collect();
     let (m, keys) = module(&case.settings.type_mod, r.text, &drv);
     unit.module = Some(m);
     unit.info = json!({"roots": root_facts, "drv_keys": keys});
